@@ -101,6 +101,19 @@ def run_case(ctx, desc):
         G = gen.unique_data((H, W), start=1)
     else:
         G = gen.quarter_data(desc["dseed"], (H, W))
+    nan_class = desc["data"] != "unique" and desc["dseed"] % 7 == 3
+    if nan_class:
+        # missing values (land points), a good share of them in cells that touch a junction: a missing value crosses a link
+        # like any other value (diff and interp of a missing neighbour are missing, on the faces as on the undivided domain)
+        import random
+
+        nr = random.Random(desc["dseed"] + 17)
+        G = G.copy()
+        for jj in range(H):
+            for ii in range(W):
+                edge = ii % N in (0, N - 1) or jj % N in (0, N - 1)
+                if nr.random() < (0.3 if edge else 0.1):
+                    G[jj, ii] = np.nan
     ex = list(desc["extra"])
     lead = [desc["extra"][e] for e in ex]
     nlead = int(np.prod(lead)) if lead else 1
@@ -151,7 +164,7 @@ def run_case(ctx, desc):
                     exp[f, j, i] = fop(l, r)
         exps.append(exp)
     links = sorted(k for k in crossed if k[0] != "open")
-    ckey = ((Kx, Ky), desc["periodic"], op, a, to, links, sorted(k for k in crossed if k[0] == "open"), N > 2) + (("lazy",) if lazy else ())
+    ckey = ((Kx, Ky), desc["periodic"], op, a, to, links, sorted(k for k in crossed if k[0] == "open"), N > 2) + (("lazy",) if lazy else ()) + (("nan",) if nan_class else ())
     ctx.judged(ckey, bool(links))
     for k in links:
         ctx.note("link_kinds_seen", k)
@@ -173,8 +186,12 @@ def run_case(ctx, desc):
     R2 = R.reshape((-1,) + exps[0].shape)
     for k in range(R2.shape[0]):
         exp = exps[k]
-        if not np.array_equal(R2[k], exp):
-            w = tuple(np.argwhere(R2[k] != exp)[0])
+        got_k = R2[k]
+        if nan_class and op in ("min", "max"):
+            # what the smaller / larger of a value and a missing value is, is not stated: those points are not compared
+            got_k = np.where(np.isnan(exp), np.nan, got_k)
+        if not np.array_equal(got_k, exp, equal_nan=True):
+            w = tuple(np.argwhere(~((got_k == exp) | (np.isnan(got_k) & np.isnan(exp))))[0])
             ctx.violation("invariant-to-face-cut", f"{op} {a}->{to} on {Kx}x{Ky} faces N={N} periodic={desc['periodic']} orientations {desc['orients']}: "
                                                   f"face {w[0]} cell (j={w[1]}, i={w[2]}) = {R2[k][w]}, undivided domain gives {exp[w]}; rule {rule[a]}")
             return
